@@ -2,7 +2,7 @@
    Statements only; each is closed by a lemma of Proofs/ and followed by Print Assumptions.
    Operator level (the sweeps); the lift to whole expression trees is Proofs/Assembly.v. *)
 From CG Require Import Proofs.Defs Proofs.Compl Proofs.Merge Proofs.Diff Proofs.InterDisjoint
-     Proofs.Clip Proofs.Stored Proofs.Assembly.
+     Proofs.Clip Proofs.Stored Proofs.Assembly Proofs.InterCover.
 
 (* union ( | ): heapq.merge yields every event of every operand exactly once; covered time is
    the union — for ANY operand streams (overlapping, nested, duplicated, unbounded, unsorted) *)
@@ -45,6 +45,16 @@ Theorem C01_intersection_cover_partial : forall streams sel,
   forall t, covers (inter_sweep streams sel) t = forallb (fun l => covers l t) streams.
 Proof. exact inter_sweep_cover. Qed.
 Print Assumptions C01_intersection_cover_partial.
+
+(* ... and in fact for ARBITRARY sorted operands — overlapping, nested, duplicated events inside an
+   operand included: although the sweep keeps one current event per operand and may lose EVENTS
+   there (KF-D2), it never loses covered TIME *)
+Theorem C01_intersection_cover : forall streams sel,
+  (2 <= length streams)%nat -> Forall (Forall wf_ivl) streams -> Forall sorted_start streams ->
+  (exists i, (i < length streams)%nat /\ sel i = true) ->
+  forall t, covers (inter_sweep streams sel) t = forallb (fun l => covers l t) streams.
+Proof. exact inter_sweep_cover_sorted. Qed.
+Print Assumptions C01_intersection_cover.
 
 (* the window: expr[a:b] = (expr & solid).fetch(a,b) clips every event of a sorted stream —
    no hypothesis on the events (overlapping, nested, zero-length, unbounded) nor on the window *)
